@@ -6,7 +6,7 @@ Open Scope list_scope.
 
 Lemma moved_items_In stub src it :
   In it (moved_items stub src) <->
-  (In it (gather stub) /\ ~ In it (gather src) /\ runtime_module (i_mod it) = false).
+  (In it (gather stub) /\ ~ In it (gather_top src) /\ runtime_module (i_mod it) = false).
 Proof.
   unfold moved_items, newly. rewrite !filter_In, !negb_true_iff, memb_false. tauto.
 Qed.
@@ -25,13 +25,13 @@ Qed.
 
 Lemma kf_apply_extra_false stub src applied :
   kf_apply_extra stub src applied = false ->
-  forall it, In it (run_items applied) -> allowed_runtime src it = true \/ In it (moved_items stub src).
+  forall it, In it (top_items applied) -> allowed_runtime src it = true \/ In it (moved_items stub src).
 Proof.
   intros H it Hit. unfold kf_apply_extra in H.
   destruct (allowed_runtime src it) eqn:A; [now left|]. right.
   destruct (memb it (moved_items stub src)) eqn:M; [now apply memb_In|].
   assert (X : existsb (fun it => negb (allowed_runtime src it) && negb (memb it (moved_items stub src)))
-                      (run_items applied) = true).
+                      (top_items applied) = true).
   { apply existsb_exists. exists it. split; [assumption|]. now rewrite A, M. }
   rewrite X in H. discriminate.
 Qed.
@@ -42,9 +42,9 @@ Theorem confine_spec :
     embedsb src applied = true ->
     confine stub src applied = Some out ->
        (future_head applied = true -> future_head out = true)
-    /\ (forall it, In it (gather stub) -> ~ In it (gather src) -> runtime_module (i_mod it) = false ->
-          In it (tc_items out) /\ ~ In it (run_items out))
-    /\ (kf_apply_extra stub src applied = false ->
+    /\ (forall it, In it (gather stub) -> ~ In it (gather_top src) -> runtime_module (i_mod it) = false ->
+          In it (tc_items out) /\ ~ In it (top_items out))
+    /\ (kf_apply_extra stub src applied = false -> nested_ok src applied = true ->
           forall it, In it (run_items out) -> allowed_runtime src it = true)
     /\ (kf_shadow stub src = false -> embedsb src out = true).
 Proof.
@@ -52,8 +52,9 @@ Proof.
   repeat split.
   - apply confine_head. now apply in_domain_no_future.
   - apply confine_moved_under_tc; [assumption|]. apply moved_items_In. auto.
-  - apply confine_moved_not_runtime. apply moved_items_In. auto.
-  - intros Hk. apply confine_no_new_runtime. now apply kf_apply_extra_false.
+  - apply confine_moved_not_toplevel. apply moved_items_In. auto.
+  - intros Hk Hn. apply confine_no_new_runtime; [now apply kf_apply_extra_false|].
+    unfold nested_ok in Hn. rewrite forallb_forall in Hn. exact Hn.
   - intro Hk. now apply confine_keeps_source.
 Qed.
 
@@ -70,10 +71,10 @@ Proof.
   - intro Hn. apply confine_needed_bound; [|assumption]. intros it. apply moved_not_runtime_module.
 Qed.
 
-(* the finding class kf_shadow is empty when no two imports of the source bind one name and no star import
-   precedes a from-import of the same module - in particular whenever every source item is in the symbol mapping *)
+(* the finding class kf_shadow is empty when no two module-level imports of the source bind one name and no star import
+   precedes a from-import of the same module - in particular whenever every module-level item is in the symbol mapping *)
 Lemma kf_shadow_free_when_gathered stub src :
-  (forall it, In it (all_items src) -> In it (gather src)) -> kf_shadow stub src = false.
+  (forall it, In it (top_items src) -> In it (gather_top src)) -> kf_shadow stub src = false.
 Proof.
   intro H. unfold kf_shadow. destruct (existsb _ _) eqn:E; [|reflexivity].
   apply existsb_exists in E as [it [Hit Hm]]. apply memb_In in Hm. apply moved_items_In in Hm as [_ [Hn _]].
